@@ -89,7 +89,10 @@ fn ops_desc<P: KeyId>(out: &mut Out, d: &Descriptor<P>, thorough: bool) {
             if let (Some(a), Some(b)) = (&spk0, &spk1) { out.line(&format!("J dtranslate-script {} {} {} {}", m.name(), w, a, b), "ok"); }
         }
         if is_tr && tx {
-            if let Some(b) = &leaves1 { out.line(&format!("J dtranslate-leaves {} {} {} {}", m.name(), w, leaves0, b), "ok"); }
+            // a full-key source (`Tr<bitcoin::PublicKey>`) serialises its keys x-only in the leaf
+            // scripts, which the driver's key table (ids < 200 = 33 bytes) does not: original skipped
+            let l0 = if P::XONLY { leaves0.clone() } else { "skip".to_string() };
+            if let Some(b) = &leaves1 { out.line(&format!("J dtranslate-leaves {} {} {} {}", m.name(), w, l0, b), "ok"); }
         }
     }
     for k in distinct.iter().take(if thorough { 8 } else { 3 }) {
@@ -99,6 +102,20 @@ fn ops_desc<P: KeyId>(out: &mut Out, d: &Descriptor<P>, thorough: bool) {
     for n in 0..=scanned.len().min(if thorough { 8 } else { 4 }) {
         let (ans, _, _) = dtr(d, &Mode::FailCall(n));
         out.line(&format!("C dtranslate failcall:{} {}", n, w), &ans);
+    }
+}
+
+/// right comb `{0,{1,{2,…}}}` / left comb `{{{0,1},2},…}` of `n` leaves
+fn comb<Pk: KeyId>(leaves: &[Miniscript<Pk, Tap>], n: usize, left: bool) -> Option<TapTree<Pk>> {
+    let l = |i: usize| TapTree::leaf(leaves[i % leaves.len()].clone());
+    if left {
+        let mut t = l(0);
+        for i in 1..n { t = TapTree::combine(t, l(i)).ok()?; }
+        Some(t)
+    } else {
+        let mut t = l(n - 1);
+        for i in (0..n - 1).rev() { t = TapTree::combine(l(i), t).ok()?; }
+        Some(t)
     }
 }
 
@@ -154,6 +171,33 @@ pub fn run(out: &mut Out, thorough: bool, rng: &mut Rng) {
                 if let Ok(d) = Descriptor::new_tr(xonly_key(200 + (i % 4) as u32), Some(tree)) { n_desc += 1; ops_desc(out, &d, thorough); }
             }
         }
+    }
+    // deeper trees: combs of 4 and 5 leaves with a key-less (hash-only) leaf in the middle; the same
+    // over FULL keys of mixed parity (`Tr<bitcoin::PublicKey>`) as source of the xonly / ren maps
+    {
+        use Node::*;
+        let bx = |n: Node| Box::new(n);
+        let hash_only = Hash(HK::Sha256, 0);
+        let mk = |b: u32| -> Vec<Node> { vec![
+            Check(bx(PkK(b))), hash_only.clone(), MultiA(2, vec![b + 2, b + 1, b + 3]),
+            AndV(bx(Verify(bx(Check(bx(PkK(b + 4)))))), bx(Check(bx(PkH(b + 5))))), SortedMultiA(1, vec![b + 7, b + 6]),
+        ] };
+        let xl: Vec<Miniscript<XOnlyPublicKey, Tap>> = mk(200).iter().filter_map(|n| to_ms::<XOnlyPublicKey, Tap>(n).ok()).collect();
+        let fl: Vec<Miniscript<PublicKey, Tap>> = mk(0).iter().filter_map(|n| to_ms::<PublicKey, Tap>(n).ok()).collect();
+        for (n, left) in [(4usize, false), (4, true), (5, false), (5, true)] {
+            if xl.len() == 5 { if let Some(t) = comb(&xl, n, left) { if let Ok(d) = Descriptor::new_tr(xonly_key(208), Some(t)) { n_desc += 1; ops_desc(out, &d, thorough); } } }
+            if fl.len() == 5 { if let Some(t) = comb(&fl, n, left) { if let Ok(d) = Descriptor::new_tr(full_key(8), Some(t)) { n_desc += 1; ops_desc(out, &d, thorough); } } }
+        }
+        if fl.len() == 5 {
+            if let Ok(d) = Descriptor::<PublicKey>::new_tr(full_key(9), None) { n_desc += 1; ops_desc(out, &d, thorough); }
+            if let Ok(d) = Descriptor::new_tr(full_key(1), Some(TapTree::leaf(fl[0].clone()))) { n_desc += 1; ops_desc(out, &d, thorough); }
+        } else { out.count("full-key tap leaves not buildable"); }
+    }
+    // scripts just under the Legacy 520-byte limit: `unc` must be refused although every key is legal
+    for n in size_limit_inputs(CtxK::Legacy) {
+        if let Ok(ms) = to_ms::<PublicKey, Legacy>(&n) { if let Ok(d) = Descriptor::new_sh(ms) { n_desc += 1; ops_desc(out, &d, thorough); } }
+        if let Ok(ms) = to_ms::<PublicKey, Segwitv0>(&n) { if let Ok(d) = Descriptor::new_wsh(ms) { n_desc += 1; ops_desc(out, &d, thorough); } }
+        if let Ok(ms) = to_ms::<PublicKey, miniscript::BareCtx>(&n) { if let Ok(d) = Descriptor::new_bare(ms) { n_desc += 1; ops_desc(out, &d, thorough); } }
     }
     out.note("descriptor inputs", n_desc.to_string());
 }
